@@ -9,9 +9,11 @@ Transcribed from
   2701-2724 `_drop_sharding_for_value`, 2726-2768 `set_pipeline_stage`,
   2385-2398 `replace_input_with`, 2341-2364 `resize_inputs`, 2455-2492 `resize_outputs`,
   3838-3877 `Graph.remove(safe=)`, 4377-4435 `Model.add_device_configuration`,
-  4437-4516 `Model.remove_device_configuration(cascade=)`, 4518-4550 `Model.clone`;
-* `src/onnx_ir/_cloner.py` 82-105 `_clone_or_get_value`, 160-224 `clone_node`,
-  226-258 `_remap_device_configurations`, 260-275 `clone_graph`;
+  4437-4516 `Model.remove_device_configuration(cascade=)`, `Model.clone` (graph and functions),
+  `Graph.clone(allow_outer_scope_values=)`, `Function.clone`;
+* `src/onnx_ir/_cloner.py` `_clone_or_get_value`, `clone_node` (inputs incl. the outer-scope and
+  `_pending_outputs` branches, attributes, outputs, the node-local `io_map` remap of fix D350),
+  `_remap_device_configurations`, `clone_graph`;
 * `src/onnx_ir/serde.py` 1620-1664 (serialization of specs and node configurations by *name*),
   2058-2095 (IR version gate), 1667-1696, 611-696 (`deserialize_model`,
   `_resolve_node_device_configurations`), 764-935 (scopes of value names), 1391-1401,
@@ -19,12 +21,16 @@ Transcribed from
 * `src/onnx_ir/_multi_device.py` 243-382 `_check_device_configurations`.
 
 Graphs nest: a node may own subgraphs (`NodeS.subgraphs`, the GRAPH attributes in order) whose
-nodes may use values of the enclosing graphs.  A model keeps, besides its root graph, the flat lists
-of all its graphs and all its nodes (what `Model.graphs()` / `graph.all_nodes()` enumerate; the
-harness compares them as sets with the real enumeration after every operation).
+nodes may use values of the enclosing graphs.  A model has functions (`ModelS.funcs`, the body graphs
+of `model.functions.values()`; a function body is a graph without initializers and without enclosing
+scope).  A model keeps, besides its root graph, the flat lists of all its graphs and all its nodes -
+those of the functions included (what `Model.graphs()` / `graph.all_nodes()` plus every function's
+`graph` / `subgraphs()` / `all_nodes()` enumerate, which is what the checker, the cascade and the
+deserializer's resolution pass walk; the harness compares them as sets with the real enumeration
+after every operation).
 
 What is NOT represented (the harness keeps its inputs inside this fragment and says so):
-functions, graph outputs and initializers, hand-built
+graph / function outputs, function attributes, call nodes and inlining, hand-built
 `NodeDeviceConfiguration`/`ShardingSpec` records (`value=None`, `configuration=None`, several
 `simple_shardings` per axis, `index_to_device_group_map`) — every record is one that `shard` /
 `set_pipeline_stage` can produce —, node/value attributes other than name and shape, and the
@@ -112,7 +118,14 @@ structure ModelS where
   nodes : List NId := []
   cfgs : List CId := []
   irVersion : Nat := 11
+  /-- the body graphs of `model.functions.values()`, in dict order; their graphs and nodes are listed in
+      `graphs` / `nodes` too (the checker, the cascade and the deserializer's resolution pass all walk
+      `graph.all_nodes()` followed by every function's `all_nodes()`) -/
+  funcs : List GId := []
 deriving DecidableEq, Repr, Inhabited
+
+/-- the root graphs of a model: the main graph, then the function bodies -/
+def ModelS.roots (ms : ModelS) : List GId := ms.graph :: ms.funcs
 
 structure World where
   values : List ValueS := []
@@ -336,6 +349,14 @@ def rename (w : World) (v : VId) (s : String) : World × Res :=
 /-- `value.shape = Shape(...)` (shapes are not touched by any annotation code) -/
 def setShape (w : World) (v : VId) (shape : Option (List Dim)) : World × Res :=
   ({ w with values := w.values.set v { (w.value v) with shape := shape } }, .ok)
+
+/-- `model.functions[id] = Function(domain, fresh, graph=Graph([], [], nodes=[]), attributes=[])`: a new
+    function with an empty body -/
+def newFunction (w : World) (m : MId) : World × Res :=
+  let g := w.graphs.length
+  let ms := w.model m
+  (({ w with graphs := w.graphs ++ [{}] } : World).setModel m
+    { ms with graphs := ms.graphs ++ [g], funcs := ms.funcs ++ [g] }, .ok)
 
 /-- a new empty model (`Model(Graph([], [], nodes=[]), ir_version=)`) -/
 def newModel (w : World) (ir : Nat) : World × Res :=
@@ -615,32 +636,46 @@ def cloneValue (st : World × VMap) (v : VId) : World × VMap :=
     let w := st.1
     ({ w with values := w.values ++ [w.value v] }, (v, w.values.length) :: st.2)
 
-/-- `Cloner._remap_device_configurations` (the value map never holds `None` for a graph clone) -/
+/-- `Cloner._remap_device_configurations(device_configurations, value_map)` (the map never holds `None`
+    for a graph clone; an entry `v -> v` - an outer-scope value passed through - leaves the spec as it is) -/
 def remapDev (vm : VMap) (dev : List NodeCfg) : List NodeCfg :=
   dev.map (fun nc => { nc with specs := nc.specs.map (fun s =>
     match vlookup vm s.value with
     | some v' => { s with value := v' }
     | none => s) })
 
-/-- inputs of the cloned node; `none` = outer-scope value with allow_outer_scope_values=False -/
-def cloneInputs (vm : VMap) : List (Option VId) → Option (List (Option VId))
+/-- inputs of the cloned node (`_cloner.py` clone_node, first loop); `none` = raises: an input that
+    is not in the value map is an outer-scope value — an error with allow_outer_scope_values=False, an
+    error when it is an output of a not yet cloned node of a graph being cloned (`_pending_outputs`),
+    and passed through unchanged otherwise -/
+def cloneInputs (allow : Bool) (pending : List VId) (vm : VMap) : List (Option VId) → Option (List (Option VId))
   | [] => some []
-  | none :: rest => (cloneInputs vm rest).map (none :: ·)
+  | none :: rest => (cloneInputs allow pending vm rest).map (none :: ·)
   | some v :: rest =>
     match vlookup vm v with
-    | none => none
-    | some v' => (cloneInputs vm rest).map (some v' :: ·)
+    | none =>
+      if allow = true ∧ v ∉ pending then (cloneInputs allow pending vm rest).map (some v :: ·) else none
+    | some v' => (cloneInputs allow pending vm rest).map (some v' :: ·)
 
-/-- state of a `Cloner`: the world, the value map, the nodes and graphs created so far, and one
-    piece of instrumentation that does not influence the result: `over` records whether
-    `self._value_map[output] = new_output` ever replaced an existing entry (a value cloned twice) -/
+/-- state of a `Cloner`: the world, the value map, the nodes and graphs created so far,
+    `allow_outer_scope_values` and `_pending_outputs` -/
 structure CSt where
   w : World
   vm : VMap := []
-  over : Bool := false
   newNodes : List NId := []
   newGraphs : List GId := []
+  allow : Bool := false
+  pending : List VId := []
 deriving Repr
+
+/-- `io_map` of `clone_node` (`_cloner.py` 243-248): old input -> new input for every input that is not
+    `None`, then old output -> new output (a later assignment to the same key wins: lookup finds the
+    first entry, so the list is in reverse order of assignment) -/
+def ioMap (ins newIns : List (Option VId)) (outs newOuts : List VId) : VMap :=
+  (outs.zip newOuts).reverse ++
+  ((ins.zip newIns).filterMap (fun p => match p with
+    | (some a, some b) => some (a, b)
+    | _ => none)).reverse
 
 /-- `clone_attr` over the GRAPH attributes of a node; `rec` is `clone_graph` -/
 def cloneSubgraphs (rec : CSt → GId → Option (CSt × GId)) : CSt → List GId → Option (CSt × List GId)
@@ -651,9 +686,10 @@ def cloneSubgraphs (rec : CSt → GId → Option (CSt × GId)) : CSt → List GI
     | some (st1, g') => (cloneSubgraphs rec st1 rest).map (fun r => (r.1, g' :: r.2))
 
 /-- `Cloner.clone_node` of the node `nd` of the source world: inputs through the value map, then
-    the attributes (subgraphs, recursively), then the new node and its outputs, then the remap -/
+    the attributes (subgraphs, recursively), then the new node and its outputs, then the remap of the
+    annotations through the node-local `io_map` (fix D350: not through the global value map) -/
 def cloneNode (rec : CSt → GId → Option (CSt × GId)) (st : CSt) (nd : NodeS) : Option (CSt × NId) :=
-  match cloneInputs st.vm nd.inputs with
+  match cloneInputs st.allow st.pending st.vm nd.inputs with
   | none => none
   | some ins =>
     match cloneSubgraphs rec st nd.subgraphs with
@@ -664,11 +700,12 @@ def cloneNode (rec : CSt → GId → Option (CSt × GId)) (st : CSt) (nd : NodeS
       let vm := (nd.outputs.zip newOuts).reverse ++ st1.vm
       let w1 : World := { w with
         values := w.values ++ nd.outputs.map w.value,
-        nodes := w.nodes ++ [{ inputs := ins, outputs := newOuts, dev := remapDev vm nd.dev,
+        nodes := w.nodes ++ [{ inputs := ins, outputs := newOuts,
+                               dev := remapDev (ioMap nd.inputs ins nd.outputs newOuts) nd.dev,
                                subgraphs := subs }] }
       some ({ st1 with
               w := w1, vm := vm,
-              over := st1.over || nd.outputs.any (fun o => (vlookup st1.vm o).isSome),
+              pending := st1.pending.filter (fun v => decide (v ∉ nd.outputs)),
               newNodes := st1.newNodes ++ [w.nodes.length] }, w.nodes.length)
 
 /-- the nodes of one graph, in order (`src` is the world being cloned: source objects are not
@@ -688,7 +725,9 @@ def cloneGraphBody (rec : CSt → GId → Option (CSt × GId)) (src : World) (st
   let r := (gs.inputs ++ gs.inits).foldl cloneValue (st.w, st.vm)
   let newIns := gs.inputs.filterMap (vlookup r.2)
   let newInits := gs.inits.filterMap (vlookup r.2)
-  match cloneNodes rec src { st with w := r.1, vm := r.2 } gs.nodes [] with
+  let st0 : CSt := { st with w := r.1, vm := r.2,
+                             pending := st.pending ++ (gs.nodes.map (fun n => (src.node n).outputs)).flatten }
+  match cloneNodes rec src st0 gs.nodes [] with
   | none => none
   | some (st2, ns) =>
     let g' := st2.w.graphs.length
@@ -701,18 +740,53 @@ def cloneGraphF (src : World) : Nat → CSt → GId → Option (CSt × GId)
   | 0, _, _ => none
   | f + 1, st, g => cloneGraphBody (cloneGraphF src f) src st g
 
-/-- `Model.clone()` and the instrumentation flag `over` -/
-def cloneModelX (w : World) (m : MId) : (World × Res) × Bool :=
-  let ms := w.model m
-  match cloneGraphF w (w.graphs.length + 1) { w := w } ms.graph with
-  | none => ((w, .raised), false)
-  | some (st, g') =>
-    (({ st.w with models := st.w.models ++
-        [{ graph := g', graphs := st.newGraphs, nodes := st.newNodes, cfgs := ms.cfgs,
-           irVersion := ms.irVersion }] }, .ok), st.over)
+/-- one `Cloner` per root graph (`Graph.clone` of the main graph, then `Function.clone` of every
+    function in dict order): the value map starts empty for each of them, the world and the
+    bookkeeping are threaded through -/
+def cloneRoots (src : World) (fuel : Nat) : CSt → List GId → Option (CSt × List GId)
+  | st, [] => some (st, [])
+  | st, g :: rest =>
+    match cloneGraphF src fuel { st with vm := [], pending := [] } g with
+    | none => none
+    | some (st1, g') => (cloneRoots src fuel st1 rest).map (fun r => (r.1, g' :: r.2))
 
-/-- `Model.clone()`: a new model over cloned graphs/nodes/values sharing the configuration objects -/
-def cloneModel (w : World) (m : MId) : World × Res := (cloneModelX w m).1
+/-- `Model.clone()` (`_core.py` 4686-4718: the graph, then every function, each with its own `Cloner`;
+    the configuration objects are shared) -/
+def cloneModel (w : World) (m : MId) : World × Res :=
+  let ms := w.model m
+  match cloneRoots w (w.graphs.length + 1) { w := w } ms.roots with
+  | none => (w, .raised)
+  | some (st, gs') =>
+    ({ st.w with models := st.w.models ++
+        [{ graph := gs'.headD 0, graphs := st.newGraphs, nodes := st.newNodes, cfgs := ms.cfgs,
+           irVersion := ms.irVersion, funcs := gs'.tail }] }, .ok)
+
+
+/-- `f2 = list(model.functions.values())[i].clone()` (`_core.py` 4905-4937: a fresh `Cloner`, outer-scope
+    values not allowed) registered on the same model under a new name
+    (`f2.name = fresh; model.functions[f2.identifier()] = f2`) -/
+def cloneFunc (w : World) (m : MId) (i : Nat) : World × Res :=
+  let ms := w.model m
+  match ms.funcs[i]? with
+  | none => (w, .raised)
+  | some g =>
+    match cloneGraphF w (w.graphs.length + 1) { w := w } g with
+    | none => (w, .raised)
+    | some (st, g') =>
+      (st.w.setModel m { ms with nodes := ms.nodes ++ st.newNodes, graphs := ms.graphs ++ st.newGraphs,
+                                 funcs := ms.funcs ++ [g'] }, .ok)
+
+/-- `g2 = graph.clone(allow_outer_scope_values=True)` (`_core.py` 3907-3950) attached to node `n` as a
+    further GRAPH attribute (`n.attributes.add(AttrGraph(fresh, g2))`); the new nodes and graphs are
+    enumerated by every model that enumerates `n` -/
+def cloneSub (w : World) (n : NId) (g : GId) : World × Res :=
+  match cloneGraphF w (w.graphs.length + 1) { w := w, allow := true } g with
+  | none => (w, .raised)
+  | some (st, g') =>
+    let w1 : World := { st.w with models := st.w.models.map (fun ms =>
+      if n ∈ ms.nodes then { ms with nodes := ms.nodes ++ st.newNodes, graphs := ms.graphs ++ st.newGraphs }
+      else ms) }
+    (w1.setNode n { (w1.node n) with subgraphs := (w1.node n).subgraphs ++ [g'] }, .ok)
 
 /-! ### serialization by name, deserialization by name -/
 
@@ -951,6 +1025,17 @@ def deserGraphF (w : World) (gate : Bool) (known : List (String × CId)) :
   | 0, _, _, _ => none
   | f + 1, st, outer, g => deserGraphBody (deserGraphF w gate known f) w gate known st outer g
 
+/-- `deserialize_model`: the main graph, then `deserialize_function` for every function, each with a
+    scope stack of its own (`serde.py` 620-626, 950-1000: function inputs, all node outputs declared,
+    then the nodes — a graph without initializers and without enclosing scopes) -/
+def deserRoots (w : World) (gate : Bool) (known : List (String × CId)) (fuel : Nat) :
+    DSt → List GId → Option (DSt × List GId)
+  | st, [] => some (st, [])
+  | st, g :: rest =>
+    match deserGraphF w gate known fuel st [] g with
+    | none => none
+    | some (st1, g') => (deserRoots w gate known fuel st1 rest).map (fun r => (r.1, g' :: r.2))
+
 /-- the configurations that reach the proto: none below IR version 11 -/
 def rtRegs (ms : ModelS) : List CId := if 11 ≤ ms.irVersion then ms.cfgs else []
 
@@ -974,13 +1059,13 @@ def rtFinish (w3 : World) (newm : ModelS) : World := { w3 with models := w3.mode
     after their contents. -/
 def deserModel (w : World) (m : MId) : Option World :=
   let ms := w.model m
-  match deserGraphF w (decide (ms.irVersion < 11)) (rtKnown w ms) (w.graphs.length + 1)
-      { w := rtWorld0 w ms } [] ms.graph with
+  match deserRoots w (decide (ms.irVersion < 11)) (rtKnown w ms) (w.graphs.length + 1)
+      { w := rtWorld0 w ms } ms.roots with
   | none => none
-  | some (st, g') =>
+  | some (st, gs') =>
     some (rtFinish st.w {
-      graph := g', graphs := st.newGraphs, nodes := st.newNodes,
-      cfgs := rtNewCfgs w ms, irVersion := ms.irVersion })
+      graph := gs'.headD 0, graphs := st.newGraphs, nodes := st.newNodes,
+      cfgs := rtNewCfgs w ms, irVersion := ms.irVersion, funcs := gs'.tail })
 
 /-- `deserialize_model(parse(serialize_model(model).SerializeToString()))` -/
 def roundTrip (w : World) (m : MId) : World × Res :=
@@ -1061,6 +1146,9 @@ inductive Op where
   | resizeOutputs (n : NId) (k : Nat)
   | clone (m : MId)
   | roundTrip (m : MId)
+  | newFunction (m : MId)
+  | cloneFunc (m : MId) (i : Nat)
+  | cloneSub (n : NId) (g : GId)
 deriving Repr
 
 /-- the micro-step program of the operations that have raise points -/
@@ -1099,6 +1187,9 @@ def stepD (w : World) : Op → World × Res
   | .resizeOutputs n k => resizeOutputs w n k
   | .clone m => cloneModel w m
   | .roundTrip m => roundTrip w m
+  | .newFunction m => newFunction w m
+  | .cloneFunc m i => cloneFunc w m i
+  | .cloneSub n g => cloneSub w n g
 
 /-- one operation: its micro-step program when it has raise points (clone and round trip only create
     new objects; what they return on a raise is the untouched world), its denotation otherwise -/
@@ -1206,17 +1297,18 @@ def allNodesF (w : World) : Nat → GId → List NId
     listed, the nodes of listed graphs are listed, the subgraphs of listed nodes are listed, and every
     listed node is reachable from the root (what `Model.graphs()` / `graph.all_nodes()` guarantee) -/
 def Closed (w : World) (ms : ModelS) : Prop :=
-  ms.graph ∈ ms.graphs ∧ (∀ g ∈ ms.graphs, ∀ n ∈ (w.graph g).nodes, n ∈ ms.nodes) ∧
+  (∀ g ∈ ms.roots, g ∈ ms.graphs) ∧ (∀ g ∈ ms.graphs, ∀ n ∈ (w.graph g).nodes, n ∈ ms.nodes) ∧
   (∀ n ∈ ms.nodes, ∀ g ∈ (w.node n).subgraphs, g ∈ ms.graphs) ∧
-  (∀ n ∈ ms.nodes, n ∈ allNodesF w (w.graphs.length + 1) ms.graph)
+  (∀ n ∈ ms.nodes, n ∈ (ms.roots.map (allNodesF w (w.graphs.length + 1))).flatten)
 
 instance (w : World) (ms : ModelS) : Decidable (Closed w ms) := by unfold Closed; infer_instance
 
 /-- **the in-alphabet condition** of an operation (hypothesis of `C19_step`): ids exist; the
     configuration passed to an annotation call is registered on the node's model and the device
     indices are inside it; a configuration is removed with `cascade=True`; clone and round trip are
-    taken of a model whose node / graph lists are `Closed`; a clone never clones a
-    value twice (the instrumentation flag of `cloneModelX`); a round trip is taken at IR version >= 11
+    taken of a model whose node / graph lists are `Closed` (so are `Function.clone` and
+    `Graph.clone(allow_outer_scope_values=True)`, the latter of a graph of every model that lists the
+    node the clone is attached to); a round trip is taken at IR version >= 11
     of a model whose named values have unique names.  Everything else is unrestricted — in particular every
     *invalid* annotation request is in the alphabet.  A node is re-attached only to models that
     register the configurations it (and everything nested under it) references; a shape is edited
@@ -1233,8 +1325,10 @@ def Pre (w : World) : Op → Prop
   | .setShape v _ => ∀ nd ∈ w.nodes, ∀ nc ∈ nd.dev, ∀ s ∈ nc.specs, s.value ≠ v
   | .setDev n dev => NodeOK w { (w.node n) with dev := dev } ∧ ∀ nc ∈ dev, RegOn w n nc.cfg
   | .setModelCfgs m cfgs => ModelOK w { (w.model m) with cfgs := cfgs }
-  | .clone m => Closed w (w.model m) ∧ (cloneModelX w m).2 = false
+  | .clone m => Closed w (w.model m)
   | .roundTrip m => 11 ≤ (w.model m).irVersion ∧ Closed w (w.model m) ∧ NamesUnique w (w.model m)
+  | .cloneFunc m _ => Closed w (w.model m)
+  | .cloneSub n g => (∃ ms ∈ w.models, n ∈ ms.nodes) ∧ ∀ ms ∈ w.models, n ∈ ms.nodes → g ∈ ms.graphs ∧ Closed w ms
   | _ => True
 
 instance (w : World) (op : Op) : Decidable (Pre w op) := by
